@@ -45,7 +45,11 @@ namespace BitSerializer::Detail
 			// Need to reset EOF (it also sets fail bit) to be able to rewind the stream
 			mStream.clear();
 		}
-		if (pos == mStreamPos || !mStream.seekg(static_cast<std::streamoff>(pos)).fail())
+		// A forward move has to stay inside the stream: file streams accept a position behind their end,
+		// so the byte in front of the target is read to make sure that the skipped range really exists
+		const bool isForward = pos > mStreamPos;
+		if (pos == mStreamPos || (!mStream.seekg(static_cast<std::streamoff>(isForward ? pos - 1 : pos)).fail()
+			&& (!isForward || mStream.get() != std::istream::traits_type::eof())))
 		{
 			mStreamPos = pos;
 			// Invalidate cache
